@@ -16,16 +16,16 @@ TEXT = {
  'C03': ('Seeded deterministic simulation, one criterion per run; criterion value of the printed matching and of every member of the optimal set the back end may return compared with the exhaustive optimum of an independent reference model.', '5/C03'),
  'C04': ('Seeded deterministic simulation with 2..4 criteria, gapped positions, shuffled flags; printed matching and the final optimal set compared with the lexicographic optimum by successive filtering in the reference model; adversarial tie-break returns the optimum worst for earlier criteria.', '5/C04'),
  'C05': ('Seeded deterministic simulation with -stab; feasible set of the program handed to the back end compared in both directions with the reference set of stable valid matchings; printed matching checked for blocking pairs; per-clause ablation probes measure discrimination.', '5/C05'),
- 'C06': ('Seeded deterministic simulation with a Byzantine back end that returns arbitrary quota-respecting assignments under -stab; the stability_correct line (the repository\'s own fault detector) must equal the reference verdict and no getter may raise.', '5/C06'),
- 'C08': ('Seeded deterministic simulation of the real generator under simulator-chosen RNG state; files captured through the file-system spy and parsed by an independent reference parser; structure, quota spreading, tie extremes and reachability of every list length checked.', '5/C08'),
+ 'C06': ('Seeded deterministic simulation with a Byzantine back end that returns arbitrary quota-respecting assignments under -stab; the stability_correct line (the repository\'s own fault detector) must equal the reference verdict and no getter may raise; the library\'s stability check is also called directly on the loaded Model, several assignments in a row between solves and before the first solve, and each return value compared with the reference.', '5/C06 and 20'),
+ 'C08': ('Seeded deterministic simulation of the real generator under simulator-chosen RNG state; files captured through the file-system spy and parsed by an independent reference parser; structure, quota spreading, tie extremes and reachability of every list length checked; size sweep 13..1500 agents and a giant lane with more than 65535 first-side agents.', '5/C08 and 20'),
  'C09': ('Seeded deterministic simulation of the pipeline generator -> file -> solver (LP mode on the stand-in back end and brute-force mode) in one simulated world; loaded model compared with the reference parse, results with the reference semantics.', '5/C09'),
  'C11': ('Seeded deterministic simulation; short/long result text re-derived from instance file and printed matching line over the diverse matchings the back-end seam produces (uniform tie-break, no criteria half of the time).', '5/C11'),
- 'C12': ('Seeded deterministic simulation of the real generator (two-sided sm/hr/spa); second-side lists compared with first-side lists of the same captured file.', '5/C12'),
+ 'C12': ('Seeded deterministic simulation of the real generator (two-sided sm/hr/spa); second-side lists compared with first-side lists of the same captured file; size sweep 13..1500 agents and a giant lane with more than 65535 first-side agents.', '5/C12 and 20'),
  'C13': ('Seeded deterministic simulation: tie decisions are RNG draws; the (list, decisions) -> strings calls of the writer are observed, the same file is loaded by the real solver and ranks compared; coverage of the 2^n decision space is measured.', '5/C13'),
- 'C14': ('Fault enumeration at the back-end seam: for each seeded scenario every single fault (round x kind x transient/persistent x value mode) and a seeded sample of fault pairs is injected under a simulated clock; the result text is checked against the recorded history.', '5/C14'),
+ 'C14': ('Fault enumeration at the back-end seam: for each seeded scenario every single fault (round x kind x transient/persistent x value mode; kinds: Infeasible, Unbounded, Undefined, Not Solved, time-limit stop with and without incumbent, and a crash of the solver process = PulpSolverError out of actualSolve) and every pair of faults for up to two (thorough: three) underlying solves, a seeded sample beyond, is injected under a simulated clock; the result text is checked against the recorded history.', '5/C14 and 20'),
  'C15': ('Seeded deterministic simulation of argument vectors and all single-fault perturbations; acceptance or SystemExit(2); the file-system spy proves nothing was written before a rejection.', '5/C15'),
  'C16': ('Seeded deterministic simulation of position assignments x flag permutations; order of performed/reported criteria, refusal before the instance is opened (spy), reported prefix under an injected non-optimal solve.', '5/C16'),
- 'C18': ('Seeded API histories (solve / four getters) with clock advances and a back end that changes its tie-break on every solve; getters must be idempotent between solves and re-solving must reproduce status and criterion values.', '5/C18'),
+ 'C18': ('Seeded API histories (solve / four getters) with clock advances and a back end that changes its tie-break on every solve; getters must be idempotent between solves and re-solving must reproduce status and criterion values; in one history of four the solves carry different limits, some binding (back end stops on its limit; limit below the elapsed time), and a solve may die at its k-th underlying solve - the full solves around a cut-short or crashed one must reproduce the first.', '5/C18 and 20'),
 }
 
 TECH = 'deterministic simulation with fault injection (seeded search over scenarios, back-end tie-breaks, injected solver faults and simulated clock; replayable minimised scenario)'
